@@ -29,6 +29,11 @@ func fullRuneNeedsMore(b []byte) bool { return !utf8.FullRune(b) }
 
 // ---- floating point helpers ----
 
+type fpKey struct {
+	op string
+	x  *Term
+}
+
 func (m *Machine) fpCmp(op string, x, y *Term) *Term {
 	tt := m.tt
 	if x.IsConst() && y.IsConst() {
@@ -136,7 +141,11 @@ func (m *Machine) f64to32(x *Term) *Term {
 	if x.IsConst() {
 		return tt.Const(32, uint64(math.Float32bits(float32(math.Float64frombits(x.K)))))
 	}
+	if r, ok := m.fpMemo[fpKey{"f64to32", x}]; ok {
+		return r
+	}
 	r := tt.Var(32, "f64to32")
+	m.fpMemo[fpKey{"f64to32", x}] = r
 	isnan := m.fpIsNaN(x)
 	// NaN: sign | 0x7FC00000 | mant>>29
 	sign := tt.Extract(x, 63, 63)
@@ -153,7 +162,11 @@ func (m *Machine) f32to64(x *Term) *Term {
 	if x.IsConst() {
 		return tt.Const(64, math.Float64bits(float64(math.Float32frombits(uint32(x.K)))))
 	}
+	if r, ok := m.fpMemo[fpKey{"f32to64", x}]; ok {
+		return r
+	}
 	r := tt.Var(64, "f32to64")
+	m.fpMemo[fpKey{"f32to64", x}] = r
 	isnan := m.fpIsNaN(x)
 	sign := tt.Extract(x, 31, 31)
 	mant := tt.Extract(x, 22, 0)
